@@ -447,7 +447,7 @@ impl Prop for C19 {
         f.push(Family::new(
             "between-phrases",
             Mode::Full,
-            "the difference phrase, whose wording is not word-by-word: tr 'A B arası' against en 'A to B' for all ordered pairs of the times [0:00, 10:00, 13:45, 23:59] and of the dates [1/2/2021, 15/3/2021, 31/12/1999] (numeric, so only the phrase differs), the ends written out or held in one- and two-word variables: same duration, printed with the language's unit words",
+            "the difference phrase, whose wording is not word-by-word: tr 'A B arası' against en 'A to B' for all ordered pairs of the times [0:00, 10:00, 13:45, 23:59] and of the dates [1/2/2021, 15/3/2021, 31/12/1999] (numeric, so only the phrase differs), the ends written out or held in one- and two-word variables, and both ends written 'd <Month>' without a year: same duration, printed with the language's unit words",
             move |ch| {
                 let times = ["0:00", "10:00", "13:45", "23:59"];
                 let dates = ["1/2/2021", "15/3/2021", "31/12/1999"];
@@ -457,7 +457,15 @@ impl Prop for C19 {
                 }
                 // the two ends written out, one end held in a variable, both ends held in variables
                 // (in Turkish the two names then stand directly next to each other)
-                match ch.choose(4) {
+                match ch.choose(5) {
+                    // both ends written 'd Month' without a year (only once per pair of positions)
+                    4 => {
+                        let pairs = [((12i64, 3i64), (15i64, 4i64)), ((1, 1), (28, 2)), ((5, 6), (20, 6))];
+                        let ((d1, m1), (d2, m2)) = pairs[(a.len() + b.len()) % 3];
+                        let tr = |d: i64, m: i64| format!("{} {}", d, month_names("tr", m)[0]);
+                        let en = |d: i64, m: i64| format!("{} {}", d, month_names("en", m)[0]);
+                        Some(Case::Pair { lang: "tr".into(), line: format!("{} {} arası", tr(d1, m1), tr(d2, m2)), en: format!("{} to {}", en(d1, m1), en(d2, m2)) })
+                    }
                     0 => Some(Case::Pair { lang: "tr".into(), line: format!("{} {} arası", a, b), en: format!("{} to {}", a, b) }),
                     1 => Some(Case::Pair { lang: "tr".into(), line: format!("a = {}\na {} arası", a, b), en: format!("a = {}\na to {}", a, b) }),
                     2 => Some(Case::Pair { lang: "tr".into(), line: format!("a = {}\nb = {}\na b arası", a, b), en: format!("a = {}\nb = {}\na to b", a, b) }),
